@@ -606,6 +606,15 @@ EXTENDED = {
            'fails iff some entry alone fails (update_error_iff), and permuting operators / paths '
            'does not change the result (update_order_irrelevant); a replacement yields exactly the '
            'replacement\'s fields plus the kept _id (replace_then_get, replace_ok_iff).',
+    'C03': 'The model = oracle equation now covers twelve stage kinds (stageX_eq_spec_partial, '
+           'pipelineX_eq_spec_partial, facet_eq_spec): $group equals the oracle as a permutation and, '
+           'sorted by key, exactly (group_eq_spec_partial, group_eq_spec_sorted_partial) with all '
+           'eight accumulators ($min/$max over one type class, $sum, exact $avg over ints, '
+           '$addToSet as a set, $first/$last), $lookup equals the plain join on scalar join values '
+           '(lookup_eq_spec_partial), $addFields/$set and $replaceRoot equal the oracle on distinct '
+           'top-level names with expressions in the C04 domain; full statements refuted by the '
+           'witnesses of minmaxtypes, sumbool, groupfalsyid, lookupboolnum and the new finding '
+           'accmissing.',
     'C05': 'The invariant is lifted to the extended step (find_one, find_one_and_*, bulk_write, '
            'builder API): stepX_inv_partial, reachableX_inv_partial / _check over every history of '
            'all modelled operations (hypothesis GoodColl also on the collections between the '
